@@ -13,6 +13,7 @@ import (
 	"sync"
 	"time"
 
+	"github.com/lesismal/llib/std/crypto/tls"
 	"github.com/lesismal/nbio/mempool"
 )
 
@@ -324,6 +325,15 @@ func closeAfterFlush(conn net.Conn, engine *Engine) {
 	c := conn
 	if hc, ok := c.(*Conn); ok && hc.Conn != nil {
 		c = hc.Conn
+	}
+	if tc, ok := c.(*tls.Conn); ok && tc.Conn() != nil {
+		// TLS on top of a non-blocking connection: the records of the response
+		// may still be queued there. Announce the end of the stream and let the
+		// connection below close once everything has been written.
+		if _, ok = tc.Conn().(interface{ CloseAfterFlush() error }); ok {
+			_ = tc.CloseWrite()
+			c = tc.Conn()
+		}
 	}
 	if cf, ok := c.(interface{ CloseAfterFlush() error }); ok {
 		// a peer that never reads must not keep the connection for ever.
